@@ -40,6 +40,8 @@ T = TypeVar("T")
 
 
 def _is_del_mark(val) -> bool:
+    if isinstance(val, np.ndarray) and val.shape == () and val.dtype.kind == "V":
+        val = val[()]  # the same opaque scalar, passed as a 0-dim array
     return isinstance(val, np.void) and val.tobytes() == DEL_VALUE.tobytes()
 
 
@@ -453,6 +455,8 @@ class IH5Dataset(IH5Node):
         self._guard_read_only()
         if self._cidx != self._last_idx:
             raise ValueError(f"Cannot set '{key}', node is not from the latest patch!")
+        if self._files[-1][self._gpath].shape == ():  # type: ignore
+            self._guard_value(val)  # a scalar must not be turned into a deletion mark
         # if we're in the latest patch, allow writing as usual (pass through)
         self._files[-1][self._gpath][key] = val  # type: ignore
 
